@@ -14,6 +14,7 @@ import (
 	"bufio"
 	"context"
 	"fmt"
+	"hash/fnv"
 	"io"
 	"log"
 	"net"
@@ -37,15 +38,36 @@ import (
 // the class recorded in the reference): every difference between Browse and
 // the specification is an unclassified oracle failure now.
 
+// Node ids are abstract keys for the model.  Numeric ids: ns<<32 | id (0 = the null id).  String, GUID
+// and opaque ids: bit 60 | 40 bits of a hash of the textual form; the ids the harness itself creates are
+// registered in `named`, so that a key can be turned back into the id (parent and child process build the
+// same server, hence the same table).
+var named = map[uint64]*ua.NodeID{}
+
 func key(n *ua.NodeID) (uint64, bool) {
 	switch n.Type() {
 	case ua.NodeIDTypeTwoByte, ua.NodeIDTypeFourByte, ua.NodeIDTypeNumeric:
 		return uint64(n.Namespace())<<32 | uint64(n.IntID()), true
 	}
-	return 0, false
+	hs := fnv.New64a()
+	hs.Write([]byte(n.String()))
+	k := uint64(1)<<60 | hs.Sum64()&(1<<40-1)
+	if old, ok := named[k]; ok && old.String() != n.String() {
+		return 0, false // hash collision: treat like an id we cannot name
+	}
+	named[k] = n
+	return k, true
 }
 
-func nodeID(k uint64) *ua.NodeID { return ua.NewNumericNodeID(uint16(k>>32), uint32(k)) }
+func nodeID(k uint64) *ua.NodeID {
+	if k>>60 != 0 {
+		if n, ok := named[k]; ok {
+			return n
+		}
+		return ua.NewStringNodeID(1, fmt.Sprintf("unknown-%d", k))
+	}
+	return ua.NewNumericNodeID(uint16(k>>32), uint32(k))
+}
 
 type ref struct {
 	typ    uint64
@@ -72,6 +94,7 @@ type world struct {
 	order []uint64
 	// Go-side transitive closure of forward HasSubtype: closure[t][x] = x is a proper subtype of t
 	closure map[uint64]map[uint64]bool
+	classes map[uint64]uint32 // node -> class as read through the Read service
 	skipped int
 }
 
@@ -116,6 +139,35 @@ func build() (*world, error) {
 		// two DIFFERENT references to the same target (another type; the inverse direction)
 		folder.AddRef(ns1.Node(ua.NewNumericNodeID(ns1.ID(), 5001)), id.Organizes, true)
 		folder.AddRef(ns1.Node(ua.NewNumericNodeID(ns1.ID(), 5002)), id.HasProperty, false)
+		// reference types whose ids are NOT numeric (string, GUID), standing alone in the hierarchy, and
+		// references of those types between the nodes of this namespace
+		strType := server.NewNode(ua.NewStringNodeID(ns1.ID(), "HasVerifString"), map[ua.AttributeID]*ua.DataValue{
+			ua.AttributeIDNodeClass:  server.DataValueFromValue(uint32(ua.NodeClassReferenceType)),
+			ua.AttributeIDBrowseName: server.DataValueFromValue(&ua.QualifiedName{NamespaceIndex: ns1.ID(), Name: "HasVerifString"}),
+		}, nil, nil)
+		guidType := server.NewNode(ua.NewGUIDNodeID(ns1.ID(), "72962B91-FA75-4AE6-8D28-B404DC7DAF63"), map[ua.AttributeID]*ua.DataValue{
+			ua.AttributeIDNodeClass:  server.DataValueFromValue(uint32(ua.NodeClassReferenceType)),
+			ua.AttributeIDBrowseName: server.DataValueFromValue(&ua.QualifiedName{NamespaceIndex: ns1.ID(), Name: "HasVerifGuid"}),
+		}, nil, nil)
+		ns1.AddNode(strType)
+		ns1.AddNode(guidType)
+		typedRef := func(from, to *server.Node, typ *ua.NodeID, fwd bool) {
+			from.VerifAppendRef(&ua.ReferenceDescription{
+				ReferenceTypeID: typ, IsForward: fwd, NodeID: ua.NewExpandedNodeID(to.ID(), "", 0),
+				BrowseName: to.BrowseName(), DisplayName: to.DisplayName(), NodeClass: to.NodeClass(), TypeDefinition: to.DataType(),
+			})
+		}
+		v0 := ns1.Node(ua.NewNumericNodeID(ns1.ID(), 5001))
+		v1 := ns1.Node(ua.NewNumericNodeID(ns1.ID(), 5002))
+		typedRef(folder, v0, strType.ID(), true)
+		typedRef(v0, folder, strType.ID(), false)
+		typedRef(folder, v1, guidType.ID(), true)
+		typedRef(v1, folder, guidType.ID(), false)
+		typedRef(obj, folder, guidType.ID(), true)
+		key(strType.ID())
+		key(guidType.ID())
+		key(ua.NewStringNodeID(ns1.ID(), "NoSuchReferenceType"))
+		key(ua.NewGUIDNodeID(0, "00000000-0000-0000-0000-000000000000"))
 		// a reference whose recorded class goes stale: the target's class is changed afterwards
 		late := server.NewVariableNode(ua.NewNumericNodeID(ns1.ID(), 5010), "late", int32(7))
 		ns1.AddNode(late)
@@ -133,8 +185,62 @@ func build() (*world, error) {
 	return w, nil
 }
 
+// readAttr reads one attribute through the real Read handler (what a client gets).
+func (w *world) readAttr(n *ua.NodeID, a ua.AttributeID) *ua.DataValue {
+	var out *ua.DataValue
+	h.Catch(func() string {
+		resp, err, ok := w.srv.VerifCallService(nil, &ua.ReadRequest{RequestHeader: &ua.RequestHeader{},
+			NodesToRead: []*ua.ReadValueID{{NodeID: n, AttributeID: a, DataEncoding: &ua.QualifiedName{}}}})
+		if ok && err == nil {
+			if rr, isRead := resp.(*ua.ReadResponse); isRead && len(rr.Results) == 1 {
+				out = rr.Results[0]
+			}
+		}
+		return ""
+	})
+	return out
+}
+
+// classOf is the class of a target node as a CLIENT sees it: the NodeClass attribute read through the
+// Read service (and, as a side effect, every node's NodeClass has been read before it is browsed: the
+// read path rewrites the stored representation, which must not change what Browse does).  Only when
+// the attribute cannot be read the node's own accessor is used.
+func (w *world) classOf(n *ua.NodeID) (uint32, bool) {
+	t := w.srv.Node(n)
+	if t == nil {
+		return 0, false
+	}
+	k, ok := key(n)
+	if c, hit := w.classes[k]; ok && hit {
+		return c, true
+	}
+	c := uint32(t.NodeClass())
+	if dv := w.readAttr(n, ua.AttributeIDNodeClass); dv != nil && dv.Status == ua.StatusOK && dv.Value != nil {
+		switch v := dv.Value.Value().(type) {
+		case int32:
+			c = uint32(v)
+		case uint32:
+			c = v
+		}
+	}
+	if ok {
+		w.classes[k] = c
+	}
+	return c, true
+}
+
 // dump reads the reference lists of all nodes and recomputes the Go-side closure.
 func (w *world) dump() {
+	w.classes = map[uint64]uint32{}
+	// clients look at the nodes before they browse: every attribute of the nodes of the added namespace
+	if ns1i, err := w.srv.Namespace(1); err == nil {
+		for _, nid := range ns1i.(*server.NodeNameSpace).VerifNodeIDs() {
+			for _, a := range []ua.AttributeID{ua.AttributeIDNodeID, ua.AttributeIDNodeClass, ua.AttributeIDBrowseName, ua.AttributeIDDisplayName,
+				ua.AttributeIDDescription, ua.AttributeIDValue, ua.AttributeIDDataType, ua.AttributeIDEventNotifier, ua.AttributeIDNodeClass} {
+				w.readAttr(nid, a)
+			}
+		}
+	}
 	w.refs, w.closure, w.order, w.skipped = map[uint64][]ref{}, map[uint64]map[uint64]bool{}, nil, 0
 	for nsi := 0; nsi < 2; nsi++ {
 		ns, _ := w.srv.Namespace(nsi)
@@ -160,9 +266,7 @@ func (w *world) dump() {
 				ok2 = true
 				if r.NodeID != nil {
 					x.target, ok2 = key(r.NodeID.NodeID)
-					if t := w.srv.Node(r.NodeID.NodeID); t != nil {
-						x.actual, x.exists = uint32(t.NodeClass()), true
-					}
+					x.actual, x.exists = w.classOf(r.NodeID.NodeID)
 				}
 				if !ok1 || !ok2 {
 					good = false
@@ -517,7 +621,7 @@ func main() {
 	}
 	defer w.srv.Close()
 	e := &env{o, r, d, h.NewRand(o.Seed), w}
-	r.Rule = "case = (node, direction, reference type, IncludeSubtypes, class mask): the real Browse handler in process (and a sample through a real client against a server in a child process) vs Browse.browse on the reference list dumped from the live address space, and vs the Go oracle (closure by BFS, class of the target node); nodes: 20 fixed (folders, Server, type nodes, reference types, an added namespace with a stale-class reference) + seeded random nodes; directions 0,1,2; reference types: none, every ReferenceType with subtypes, a sample of leaves, an unknown id, a non-reference-type id; masks 0, single classes, unions; plus getSubRefs and suitableRefType for all type pairs; distinct by the case text"
+	r.Rule = "case = (node, direction, reference type, IncludeSubtypes, class mask): the real Browse handler in process (and a sample through a real client against a server in a child process) vs Browse.browse on the reference list dumped from the live address space, and vs the Go oracle (closure by BFS, class of the target node); nodes: 20 fixed (folders, Server, type nodes, reference types, an added namespace with a stale-class reference) + seeded random nodes; directions 0,1,2; reference types: none, every ReferenceType with subtypes, a sample of leaves, an unknown id, a non-reference-type id, reference types with a string and a GUID id (and unknown ones); the class of a target is what the Read service returns for its NodeClass attribute (all nodes have been read before they are browsed); masks 0, single classes, unions; plus getSubRefs and suitableRefType for all type pairs; distinct by the case text"
 
 	nNil, nRefs := 0, 0
 	for _, rs := range w.refs {
@@ -547,7 +651,7 @@ func main() {
 	var refTypes, withSubs, leaves []uint64
 	for _, k := range w.order {
 		if k>>32 == 0 {
-			if n := w.srv.Node(nodeID(k)); n != nil && n.NodeClass() == ua.NodeClassReferenceType {
+			if c, ok := w.classOf(nodeID(k)); ok && c == uint32(ua.NodeClassReferenceType) {
 				refTypes = append(refTypes, k)
 				if len(w.closure[k]) > 0 {
 					withSubs = append(withSubs, k)
@@ -558,6 +662,11 @@ func main() {
 		}
 	}
 
+	if len(leaves) == 0 || len(withSubs) == 0 {
+		r.Fail("dump", "", fmt.Sprintf("the address space shows %d reference types with and %d without subtypes through the Read service", len(withSubs), len(leaves)))
+		r.Write(o.Out)
+		return
+	}
 	// (1) getSubRefs and suitableRefType against the model, all pairs
 	for _, t := range append(append([]uint64{}, refTypes...), 58, 24, 99999) {
 		impl := h.Catch(func() string {
@@ -605,7 +714,34 @@ func main() {
 	}
 
 	// (2) Browse
-	nodes := []uint64{84, 85, 86, 87, 2253, 2256, 2255, 58, 61, 62, 63, 24, 31, 33, 34, 45, 47, 1<<32 | 85, 1<<32 | 5000, 1<<32 | 5001}
+	strT, _ := key(ua.NewStringNodeID(1, "HasVerifString"))
+	guidT, _ := key(ua.NewGUIDNodeID(1, "72962B91-FA75-4AE6-8D28-B404DC7DAF63"))
+	noT, _ := key(ua.NewStringNodeID(1, "NoSuchReferenceType"))
+	zeroGuid, _ := key(ua.NewGUIDNodeID(0, "00000000-0000-0000-0000-000000000000"))
+	nonNumeric := []uint64{strT, guidT, noT, zeroGuid}
+	// suitableRefType with non-numeric ids on either side
+	for _, t1 := range nonNumeric {
+		for _, t2 := range append([]uint64{35, 47, 40}, nonNumeric...) {
+			for _, sub := range []bool{true, false} {
+				for _, pair := range [][2]uint64{{t1, t2}, {t2, t1}} {
+					impl := h.Catch(func() string {
+						if w.srv.VerifSuitableRefType(nodeID(pair[0]), nodeID(pair[1]), sub) {
+							return "yes"
+						}
+						return "no"
+					})
+					line := fmt.Sprintf("srt %d %d %d", pair[0], pair[1], b2i(sub))
+					r.Count(line, true)
+					r.Hit("srt-non-numeric:" + impl)
+					r.Compare(d, line, impl)
+					if want := pair[0] == pair[1] || (sub && w.closure[pair[0]][pair[1]]); (impl == "yes") != want {
+						r.Fail(line, "", fmt.Sprintf("suitableRefType answered %s, the specification says %v", impl, want))
+					}
+				}
+			}
+		}
+	}
+	nodes := []uint64{84, 85, 86, 87, 2253, 2256, 2255, 58, 61, 62, 63, 24, 31, 33, 34, 45, 47, 1<<32 | 85, 1<<32 | 5000, 1<<32 | 5001, 1<<32 | 5002}
 	for i := 0; i < o.N(10, 120); i++ {
 		nodes = append(nodes, w.order[e.rnd.Intn(len(w.order))])
 	}
@@ -614,6 +750,7 @@ func main() {
 	for ni, n := range nodes {
 		big := len(w.refs[n]) > 200
 		rts := []uint64{0, 99999, 58}
+		rts = append(rts, nonNumeric...)
 		rts = append(rts, withSubs...)
 		for i := 0; i < 4; i++ {
 			rts = append(rts, leaves[e.rnd.Intn(len(leaves))])
@@ -725,10 +862,15 @@ func main() {
 		proto.NodeID = ua.NewExpandedNodeID(target.ID(), "", 0)
 		proto.NodeClass = target.NodeClass()
 		folder.VerifAppendRef(&proto)
+		// … and the GUID-id type becomes a subtype of the string-id type
+		if sn, gn := ns1.Node(nodeID(strT)), ns1.Node(nodeID(guidT)); sn != nil && gn != nil {
+			sn.AddRef(gn, id.HasSubtype, true)
+			gn.AddRef(sn, id.HasSubtype, false)
+		}
 		w.dump()
 		d2 := e.d
 		e.d = nil // no model for the changed hierarchy
-		for _, rt := range []uint64{id.HasComponent, id.Aggregates, id.HasChild, id.HierarchicalReferences, id.References, newType, id.Organizes, 0} {
+		for _, rt := range []uint64{id.HasComponent, id.Aggregates, id.HasChild, id.HierarchicalReferences, id.References, newType, id.Organizes, 0, strT, guidT} {
 			for _, sub := range []bool{true, false} {
 				for dir := 0; dir < 3; dir++ {
 					c := bcase{1<<32 | 5000, dir, rt, sub, 0}
@@ -740,7 +882,7 @@ func main() {
 		e.d = d2
 	}
 	for _, b := range []string{"dir:0", "dir:1", "dir:2", "sub:true", "sub:false", "reftype:none", "reftype:with-subtypes", "reftype:leaf-or-unknown",
-		"mask:0", "mask:set", "result:empty", "result:refs", "srt:yes", "srt:no", "wire:ok", "late-subtype-phase", "stale-class-witness"} {
+		"mask:0", "mask:set", "result:empty", "result:refs", "srt:yes", "srt:no", "wire:ok", "late-subtype-phase", "stale-class-witness", "srt-non-numeric:yes", "srt-non-numeric:no"} {
 		if r.Distribution[b] == 0 {
 			r.Unreached = append(r.Unreached, b)
 		}
